@@ -401,6 +401,35 @@ class RegistryImport(Harness):
         return tuple((n, n in R._handlers, mod is not None and R._handlers.get(n) is getattr(mod, n, None)) for n in self.NAMES)
 
 
+class RegistryImportDirect(RegistryImport):
+    """one thread imports a handler module DIRECTLY (`import passlib.handlers.django`, as application code and
+    passlib.ext.django do) while another looks a name of that module up through the registry.  The module body itself
+    resolves other hashers through the registry (`from passlib.hash import pbkdf2_sha1, ...`), one of which is not
+    registered yet: a lock taken by the registry around its import would be acquired in the opposite order by the two
+    threads (import lock -> registry lock / registry lock -> import lock)."""
+
+    name = "registry_import_direct"
+    MOD = "passlib.handlers.django"
+    NAMES = ("django_salted_sha1", "django_salted_md5", "django_des_crypt", "django_disabled", "django_bcrypt",
+             "django_bcrypt_sha256", "django_pbkdf2_sha256", "django_pbkdf2_sha1", "django_argon2")
+    NEEDS = ("pbkdf2_sha1",)  # looked up by the module body; un-registered (its module stays imported) before every run
+
+    def fresh(self):
+        import passlib.registry as R
+
+        st = super().fresh()
+        for n in self.NEEDS:
+            R._handlers.pop(n, None)
+        return st
+
+    def body(self, st, op):
+        if op == "import":
+            import importlib
+
+            return lambda: importlib.import_module(self.MOD).django_salted_sha1.name
+        return super().body(st, op)
+
+
 class ContextRecords(Harness):
     name = "context_records"
 
@@ -682,6 +711,8 @@ def make_harness(spec):
         return Registry(ops)
     if kind == "registry_import":
         return RegistryImport(ops)
+    if kind == "registry_import_direct":
+        return RegistryImportDirect(ops)
     if kind == "context_records":
         return ContextRecords(ops)
     if kind == "post_init":
@@ -865,6 +896,8 @@ def harness_specs(quick):
     add("registry", ("dir", "attr"), b2)
     add("registry_import", ("get:ldap_hex_md5", "get:ldap_hex_sha1"), b2)
     add("registry_import", ("attr:roundup_plaintext", "get:roundup_plaintext"), b2)
+    add("registry_import_direct", ("import", "get:django_salted_sha1"), 1)
+    add("registry_import_direct", ("import", "attr:django_pbkdf2_sha256"), 1)
     add("context_records", ("verify_admin", "needs_update_admin"), b2)
     add("context_records", ("identify", "verify_none"), b2)
     add("context_records", ("hash_admin", "disable"), 1 if quick else 2)
